@@ -6,6 +6,51 @@ import os
 ROOT = os.path.dirname(os.path.dirname(os.path.abspath(__file__)))
 
 CHECKS = {
+    "C01": dict(
+        technique="Coq model of the UPER writer/reader + round-trip oracle over differential correspondence (theorems in Props/C01.v)",
+        text="Gallina model of rw/uper.rs (Scope state machine, presence-bit back-patching, open-type wrapping, every write_*/read_* "
+             "over the proven L1 primitives, both cargo profiles) with the theorems of Props/C01.v; tied to /repo by differential "
+             "execution: the harness drives the real UperWriter/UperReader with hand-rolled constraint impls over a constant grid and "
+             "dynamic values (histories of 1-5 values per writer, size sweeps up to 131072), each case also judged by the round-trip oracle.",
+        note="Trusted: Coq kernel, extraction + driver (cross-checked), Rust harness, Python oracle; descriptor constants assumed consistent "
+             "with the field list; String/Vec/from_utf8 and trait dispatch modelled; known findings F01-1..3 (>= 16K fragmentation) listed.",
+        design="6 (C01)"),
+    "C10": dict(
+        technique="Coq proof (model of every PackedWrite/PackedRead method = independent X.691 transcription, all i64/u64 arguments) + differential correspondence",
+        text="48 theorems (Props/C10.v) relating the Gallina model of unaligned/mod.rs to an independent clause-by-clause transcription of "
+             "X.691 11.3-11.9/14/16/17 (Per/X691.v), for both cargo profiles and all bounds/values, including octet-string fragmentation at every "
+             "length, rejection of inadmissible arguments and panic-freedom of writers/readers; refuted classes carry vm_compute witnesses. "
+             "Model tied to /repo by differential execution (exhaustive small ranges, boundary families, lengths up to 200K); the crate's bits are "
+             "also compared with the X.691 reference.",
+        note="Trusted: Coq kernel, gen/consts.py (PER thresholds), extraction + driver (cross-checked), harness; X691.v is my transcription of the "
+             "standard; BitBuffer/Bits as bit lists justified by C11; known findings F10-1..3 listed.",
+        design="6 (C10)"),
+    "C13": dict(
+        technique="Coq proof (tokenizer state machine vs layout renderer, induction over token lists) + differential correspondence",
+        text="Gallina model of parse/tokenizer.rs (char-level state machine, Token::append, nested block comments, explicit panic) with theorems "
+             "C13_tokenize / C13_layout_invariant / C13_locations / C13_positions_intrinsic for every lex_safe layout over seven gap kinds; model "
+             "tied to /repo by differential execution on generated re-layouts and malformed streams, judged by an independent Python oracle "
+             "(token contents and 1-based line/column of every token).",
+        note="Trusted: Coq kernel, extraction + driver, harness, Python printer/oracle; str::lines and char::is_control modelled (exact for all "
+             "Unicode scalar values); '*' '/' as comment content, '-- c --' and lone CR are covered by the tie only.",
+        design="6 (C13)"),
+    "C15": dict(
+        technique="Coq proof (pure Z arithmetic over all of i64^2) + exhaustive boundary-pair correspondence",
+        text="Gallina model of the INTEGER type cascade of rust.rs and the min/max accessor text with theorems C15_total, C15_holds_all, "
+             "C15_narrowest, C15_ext_is_64, C15_accessors, C15_declared_bounds for all bounds at once (outside the two listed finding classes, "
+             "each with a refutation witness); tied to /repo by differential execution over all ordered pairs of the boundary set B "
+             "(about 3.6e5 pairs per build) through the real front end, judged by a set-inclusion oracle.",
+        note="Trusted: Coq kernel, gen/consts.py (I8_MAX..U32_MAX), extraction + driver, harness; known findings F15-1, F15-2.",
+        design="6 (C15)"),
+    "C16": dict(
+        technique="Coq proof (Sorted + Permutation + stability of the SET ordering, tag rules) + permutation-exhaustive correspondence",
+        text="Gallina model of tag assignment, TagResolver and sort_fields_canonically with theorems for any number of components "
+             "(C16_set_sorted, C16_set_stable, C16_sequence_textual, C16_tag_rules, C16_automatic_tags, C16_presence_order, "
+             "C16_canonical_le_is_X680_8_6 proved against the generated Tag enum order); refuted classes with witnesses. Tied to /repo by running "
+             "all permutations of <= 4 (quick) / <= 5 components through the real two-stage pipeline, judged by an X.680 8.6 oracle.",
+        note="Trusted: Coq kernel, gen/consts.py (Tag enum order, DEFAULT_* tags), extraction + driver, harness; stable sort_by modelled as "
+             "insertion sort; known findings F16-1..6; order among extension additions judged as canonical (X.691 21.1 reading noted in DESIGN).",
+        design="6 (C16)"),
     "C11": dict(
         technique="Coq proof (byte-level bit copy refines list-of-bool splice) + bounded-exhaustive differential correspondence",
         text="Gallina model of slice.rs/buffer.rs on byte lists (bitwise copy, bulk copy with head/aligned/unaligned/tail branches, "
